@@ -236,12 +236,17 @@ class Histogram1D(ObjectWithBinning, HistogramBase):
         keep_missed = False
         if isinstance(index, int):
             return self.bins[index], self.frequencies[index]
+        if isinstance(index, (list, tuple)):
+            index = np.asarray(index)
         if isinstance(index, np.ndarray):
             if index.dtype == bool:
                 if index.shape != (self.bin_count,):
                     raise IndexError(
                         "Cannot index with masked array of a wrong dimension"
                     )
+            else:
+                # Bins must stay in rising order, each at most once
+                index = np.unique(np.arange(self.bin_count)[index])
         elif isinstance(index, slice):
             keep_missed = self.keep_missed
             # TODO: Fix this
